@@ -296,6 +296,46 @@ pub fn gen_history(r: &mut StdRng, scn: usize) -> Vec<Op> {
   ops
 }
 
+/// A TLC-generated history (MC_Frontends.tla PrintCase: add/update/delete/commit/compact with ids,
+/// versions and validity chosen by TLC) as driver operations; a search follows every commit.
+pub fn history_from_case(case: &Value, r: &mut StdRng) -> Vec<Op> {
+  let std_search = |q: &str, form: &'static str| {
+    let req = json!({"query": q, "limit": 3, "execution": "wand", "return_stored": true});
+    Op::Search(SearchOp { req, cursor_from: None, cli_form: form, exec_flag: "wand".into() })
+  };
+  let mut ops = vec![Op::Init];
+  for o in case["ops"].as_array().cloned().unwrap_or_default() {
+    let docs: Vec<Doc> = o["docs"]
+      .as_array()
+      .cloned()
+      .unwrap_or_default()
+      .iter()
+      .map(|d| {
+        let (id, ver) = (d["id"].as_str().unwrap_or("a"), d["ver"].as_u64().unwrap_or(0));
+        if d["valid"] == true { make_doc(r, id, ver) } else { make_invalid_doc(r, id, ver) }
+      })
+      .collect();
+    let ids: Vec<String> = o["ids"].as_array().cloned().unwrap_or_default().iter().filter_map(|x| x.as_str().map(|s| s.to_string())).collect();
+    match o["kind"].as_str().unwrap_or("") {
+      "add" => ops.push(Op::Add(docs)),
+      "update" => ops.push(Op::Update(docs)),
+      "delete" => ops.push(Op::Delete(ids)),
+      "compact" => ops.push(Op::Compact),
+      "commit" => {
+        ops.push(Op::Commit);
+        ops.push(std_search("common", "flags"));
+      }
+      other => panic!("unknown case op {other}"),
+    }
+  }
+  ops.push(Op::Commit);
+  ops.push(std_search("w1 common", "file"));
+  let k = ops.len() - 1;
+  let Op::Search(last) = ops[k].clone() else { unreachable!() };
+  ops.push(Op::Search(SearchOp { cursor_from: Some(k), ..last }));
+  ops
+}
+
 // ------------------------------------------------------------------------------------------------
 // Observations
 // ------------------------------------------------------------------------------------------------
@@ -1077,9 +1117,16 @@ pub fn main(args: &Args) -> Result<()> {
   let mut steps = 0usize;
   let mut searches = 0usize;
   let mut processes = 0usize;
-  for scn in 0..n_scn {
+  let mut cases: Vec<Value> = Vec::new();
+  if let Some(path) = args.get("cases") {
+    for line in std::fs::read_to_string(path)?.lines().filter(|l| !l.trim().is_empty()) {
+      cases.push(serde_json::from_str(line)?);
+    }
+  }
+  let n_cases = cases.len();
+  for scn in 0..(n_cases + n_scn) {
     let mut r = rng(seed, 25_000 + scn as u64);
-    let ops = gen_history(&mut r, scn);
+    let ops = if scn < n_cases { history_from_case(&cases[scn], &mut r) } else { gen_history(&mut r, scn - n_cases) };
     let scratch = Scratch::new("front");
     let mut obs: BTreeMap<&str, Vec<Obs>> = BTreeMap::new();
     for fe in FES {
@@ -1102,7 +1149,7 @@ pub fn main(args: &Args) -> Result<()> {
       obs.insert(fe, v);
     }
     tr.emit(json!({"ev": "reset", "scn": scn, "ops": ops.len(), "cli": cli_bin.is_some(),
-                   "fes": FES, "invalid_docs": scn % 2 == 1}));
+                   "fes": FES, "tlc_generated": scn < n_cases}));
     for (step, op) in ops.iter().enumerate() {
       let lib_cursor = match op {
         Op::Search(s) => s.cursor_from.map(|k| obs["lib"][k].cursor.is_some()).unwrap_or(false),
@@ -1122,7 +1169,7 @@ pub fn main(args: &Args) -> Result<()> {
   let lines = tr.finish();
   println!(
     "{}",
-    json!({"scenarios": n_scn, "steps": steps, "searches": searches, "cli_processes": processes,
+    json!({"scenarios": n_scn + n_cases, "tlc_generated": n_cases, "steps": steps, "searches": searches, "cli_processes": processes,
            "events": lines, "out": out})
   );
   Ok(())
